@@ -8,9 +8,10 @@ import (
 	"fmt"
 	"math/rand"
 	"sort"
+	"sync"
+	"sync/atomic"
 
 	"github.com/syndtr/goleveldb/leveldb"
-	"github.com/syndtr/goleveldb/leveldb/opt"
 	"github.com/syndtr/goleveldb/leveldb/storage"
 	"github.com/syndtr/goleveldb/leveldb/util"
 
@@ -19,6 +20,7 @@ import (
 	"verif/model"
 	"verif/vstor"
 	"verif/wk"
+	"verif/wl"
 )
 
 func main() { wk.Main("C04", run) }
@@ -61,131 +63,56 @@ func build(c *wk.Ctx, i int, r *rand.Rand) (*workload, error) {
 	// Crash points start here: before the creating Open has returned there is no DB yet
 	// that could "open again" (a half-created directory is refused by Open by design).
 	w.opened = w.stor.OpIndex()
-	kg := model.NewKeyGen(r, 40+r.Intn(200))
-	w.keys = kg.Pool
+	// One writer, or three concurrent writers on disjoint key spaces (write merging then groups
+	// synced and unsynced writes of different clients into one journal record).
+	nwriters := 1
+	if r.Intn(2) == 0 {
+		nwriters = 3
+	}
 	nops := 200 + r.Intn(c.Pick(700, 1300))
 	syncPct := []int{5, 30, 100}[r.Intn(3)]
-	opn := uint32(0)
-	val := func(sub int) []byte {
-		opn++
-		return model.Value(1, opn, uint32(sub), model.ValueSize(r, w.os.O.GetBlockSize(), w.os.O.GetWriteBuffer()))
-	}
-	marker := func() []byte {
-		opn++
-		return []byte(fmt.Sprintf("m/%06d", opn))
-	}
-	issue := func(b *hist.Batch, f func() error) error {
-		b.Start = w.stor.OpIndex()
-		b.Ack = -1
-		w.h.Add(b)
-		if err := f(); err != nil {
-			b.Failed = true
-			return err
+	shared := &hist.History{}
+	w.h = shared
+	var wg sync.WaitGroup
+	var firstErr atomic.Value
+	for wi := 0; wi < nwriters; wi++ {
+		rr := rand.New(rand.NewSource(r.Int63()))
+		kg := model.NewKeyGen(rr, 40+rr.Intn(120))
+		for j := range kg.Pool {
+			kg.Pool[j] = append([]byte{byte('A' + wi), '/'}, kg.Pool[j]...)
 		}
-		b.Ack = w.stor.OpIndex()
-		return nil
-	}
-	for n := 0; n < nops; n++ {
-		sync := r.Intn(100) < syncPct
-		wo := &opt.WriteOptions{Sync: sync}
-		var err error
-		switch x := r.Intn(100); {
-		case x < 45:
-			k, v := kg.Pick(r), val(0)
-			err = issue(&hist.Batch{Kind: "put", Sync: sync, Ops: []hist.WOp{{K: k, V: v}}}, func() error { return db.Put(k, v, wo) })
-		case x < 57:
-			k := kg.Pick(r)
-			err = issue(&hist.Batch{Kind: "delete", Sync: sync, Ops: []hist.WOp{{Del: true, K: k}}}, func() error { return db.Delete(k, wo) })
-		case x < 77:
-			nb := 2 + r.Intn(12)
-			big := r.Intn(10) == 0
-			b := new(leveldb.Batch)
-			m := marker()
-			hb := &hist.Batch{Kind: "batch", Sync: sync, Marker: m}
-			b.Put(m, []byte("1"))
-			hb.Ops = append(hb.Ops, hist.WOp{K: m, V: []byte("1")})
-			for j := 0; j < nb; j++ {
-				k := kg.Pick(r)
-				if r.Intn(4) == 0 {
-					b.Delete(k)
-					hb.Ops = append(hb.Ops, hist.WOp{Del: true, K: k})
-				} else {
-					v := val(j)
-					if big && j == 0 {
-						v = model.Value(1, opn, 77, w.os.O.GetWriteBuffer()+r.Intn(2048))
+		w.keys = append(w.keys, kg.Pool...)
+		cl := wl.NewClient(db, w.stor, rr, kg, w.os.O, uint32(wi+1))
+		cl.H = shared
+		cl.SyncPct = syncPct
+		if nwriters > 1 {
+			cl.SyncPct = []int{0, 50, 100}[wi] // one client never syncs, one always: merged groups mix them
+		}
+		wg.Add(1)
+		go func(n int) {
+			defer wg.Done()
+			for j := 0; j < n; j++ {
+				switch x := rr.Intn(100); {
+				case x < 88:
+					if err := cl.Write(); err != nil {
+						firstErr.Store(fmt.Errorf("a write failed without any fault: %v", err))
+						return
 					}
-					b.Put(k, v)
-					hb.Ops = append(hb.Ops, hist.WOp{K: k, V: v})
-				}
-			}
-			if big {
-				hb.Kind = "oversized-batch"
-				if !w.os.O.GetDisableLargeBatchTransaction() {
-					// routed through a transaction: durable once acknowledged, whatever the Sync option says;
-					// the statement only obliges us for Sync, so only that is required.
-					hb.Kind = "oversized-batch(transaction path)"
-				}
-			}
-			err = issue(hb, func() error { return db.Write(b, wo) })
-		case x < 87:
-			// explicit transaction
-			m := marker()
-			hb := &hist.Batch{Kind: "transaction", Sync: true, Marker: m}
-			discard := r.Intn(4) == 0
-			err = issue(hb, func() error {
-				tr, err := db.OpenTransaction()
-				if err != nil {
-					return err
-				}
-				if err := tr.Put(m, []byte("1"), nil); err != nil {
-					tr.Discard()
-					return err
-				}
-				hb.Ops = append(hb.Ops, hist.WOp{K: m, V: []byte("1")})
-				nb := 1 + r.Intn(60)
-				for j := 0; j < nb; j++ {
-					k := kg.Pick(r)
-					if r.Intn(5) == 0 {
-						if err := tr.Delete(k, nil); err != nil {
-							tr.Discard()
-							return err
-						}
-						hb.Ops = append(hb.Ops, hist.WOp{Del: true, K: k})
-					} else {
-						v := val(j)
-						if err := tr.Put(k, v, nil); err != nil {
-							tr.Discard()
-							return err
-						}
-						hb.Ops = append(hb.Ops, hist.WOp{K: k, V: v})
+				case x < 91:
+					if err := db.CompactRange(util.Range{}); err != nil {
+						firstErr.Store(fmt.Errorf("CompactRange failed without any fault: %v", err))
+						return
 					}
+				default:
+					db.Get(kg.Pick(rr), nil)
 				}
-				if discard {
-					tr.Discard()
-					hb.Discard = true
-					hb.Kind = "transaction(discarded)"
-					return nil
-				}
-				return tr.Commit()
-			})
-		case x < 90:
-			var rg util.Range
-			if r.Intn(2) == 0 {
-				a, b := kg.Pick(r), kg.Pick(r)
-				if string(a) > string(b) {
-					a, b = b, a
-				}
-				rg = util.Range{Start: a, Limit: b}
 			}
-			err = db.CompactRange(rg)
-		default:
-			// reads keep seek compaction and the caches busy
-			db.Get(kg.Pick(r), nil)
-		}
-		if err != nil {
-			db.Close()
-			return nil, fmt.Errorf("workload op %d failed without any fault: %v", n, err)
-		}
+		}(nops / nwriters)
+	}
+	wg.Wait()
+	if e, _ := firstErr.Load().(error); e != nil {
+		db.Close()
+		return nil, e
 	}
 	if r.Intn(2) == 0 {
 		// half of the workloads end with a clean close, so that images after the close exist too
@@ -196,7 +123,7 @@ func build(c *wk.Ctx, i int, r *rand.Rand) (*workload, error) {
 		leveldb.VerifBarrier(db)
 		db.Close()
 	}
-	w.desc = map[string]interface{}{"options": w.os.Desc, "client_ops": nops, "sync_pct": syncPct, "batches": len(w.h.B)}
+	w.desc = map[string]interface{}{"options": w.os.Desc, "client_ops": nops, "writers": nwriters, "sync_pct": syncPct, "batches": len(w.h.B)}
 	return w, nil
 }
 
@@ -215,6 +142,7 @@ func runWorkload(c *wk.Ctx, i int) {
 	im := w.stor.NewImager()
 	n := im.Len()
 	c.Count("workloads", 1)
+	c.Count(fmt.Sprintf("workloads_with_%v_writers", w.desc["writers"]), 1)
 	c.Count("storage_ops_in_logs", n)
 	// crash points
 	points := map[int64]string{}
